@@ -10,7 +10,10 @@ Inductive c04case :=
 | CEscape (q : quote) (roblox : bool) (literal : list N) (impl : list (nat * nat))
 | CEscapePanic
 | CSame (chunk : block) (flagged : bool) (same_cond same_block swapped : nat)
-| CLines (cfg : one_line_if) (evs : list sev) (impl : list N).
+| CLines (cfg : one_line_if) (evs : list sev) (impl : list N)
+(* empty_if / empty_loop under `comments_count`: the arms of one chain (or the body of one loop) by kind:
+   0 empty, 1 a line comment only, 2 a block comment only, 3.. at least one statement *)
+| CArms (comments_count : bool) (arms : list N) (count : nat).
 
 (** multiple_statements, judged on the implementation's own output: every reported statement has an
     earlier-visited statement ending on its line *)
@@ -74,6 +77,10 @@ Definition check_case (c : c04case) : N * N :=
       let under := Nat.ltb sc spec_c || Nat.ltb sb spec_b in
       if flagged then (bit over 4, 0)%N
       else (bit (negb corr) 1 + bit over 4 + bit under 8, 0)%N
+  | CArms cc arms cnt =>
+      (* documented: a block is empty when it has no statement; with comments_count a comment makes it non-empty *)
+      let expected := List.length (filter (fun a => (a =? 0)%N || (negb cc && ((a =? 1)%N || (a =? 2)%N))) arms) in
+      (bit (Nat.ltb expected cnt) 4 + bit (Nat.ltb cnt expected) 8, 0)%N
   | CLines cfg evs impl =>
       let m := reported (lines_run cfg evs) in
       let corr := same_multiset m impl in
